@@ -58,6 +58,26 @@ def once_flag_guarded(node, fn):
     return False
 
 
+# library callables whose result is a one-shot iterator over their argument:
+# a local bound to one is a cursor, and reading it again continues the same
+# pass instead of starting a second one
+CURSOR_BUILDERS = {'builtins.enumerate', 'builtins.map', 'builtins.filter',
+                   'builtins.zip', 'itertools.islice', 'itertools.chain',
+                   'itertools.takewhile', 'itertools.dropwhile',
+                   'itertools.starmap', 'itertools.filterfalse',
+                   'itertools.accumulate', 'itertools.zip_longest',
+                   'itertools.compress', 'itertools.pairwise'}
+
+
+def _single_binding(fn_node, name):
+    n = 0
+    for x in model.walk_shallow(fn_node):
+        if isinstance(x, ast.Name) and x.id == name and isinstance(
+                x.ctx, (ast.Store, ast.Del)):
+            n += 1
+    return n == 1
+
+
 def _contains(root, node):
     return any(n is node for n in ast.walk(root))
 
@@ -88,6 +108,54 @@ def _inside_comprehension_body(node, fn_node):
     return False
 
 
+WHOLE = ('loop', 'eager', 'callee-eager', 'callee-loop', 'star')
+
+
+def _exhausted_cursor_read(g, cursor_uses, deep):
+    """A cursor (iter(p), enumerate(p), map(f, p) ...) may be read in
+    several places: each read continues the same pass.  What is wrong is a
+    whole-stream read of a cursor that an earlier read has already run to
+    its end (a loop left because the cursor ran out, list(), sorted() ...):
+    it sees nothing."""
+    by_node = {}
+    for alias, lst in cursor_uses.items():
+        for cn, u in lst:
+            if u.mode in WHOLE:
+                by_node.setdefault(cn.id, []).append((alias, u))
+    if sum(len(v) for v in by_node.values()) < 2:
+        return None
+    for path in g.paths(max_visits=3 if deep else 2,
+                        limit=60000 if deep else 4000):
+        done = {}
+        prev = None
+        for i, n in enumerate(path):
+            for alias, u in by_node.get(n.id, ()):
+                lp = n.ast if isinstance(n.ast, ast.For) else None
+                in_header = lp is not None and _within(u.node, lp.iter)
+                from_body = in_header and prev is not None and \
+                    prev.stmt is not None and any(
+                        _within(prev.stmt, b) or prev.stmt is b
+                        for b in lp.body)
+                if alias in done and not from_body:
+                    first = done[alias]
+                    hit = [(first[0], 'cursor `%s` run to its end by %s' % (
+                        alias, first[1].mode), first[1].node, False),
+                        (n, '%s of the same cursor' % u.mode, u.node, False)]
+                    return (2, hit, path)
+                if in_header:
+                    nxt = path[i + 1] if i + 1 < len(path) else None
+                    inside = nxt is not None and nxt.stmt is not None and \
+                        any(_within(nxt.stmt, b) or nxt.stmt is b
+                            for b in lp.body)
+                    if not inside:
+                        done[alias] = (n, u)
+                elif u.mode != 'loop' and not any(
+                        k in (u.detail or '') for k in ('any', 'all')):
+                    done[alias] = (n, u)
+            prev = n
+    return None
+
+
 def analyse(repo, cons, fi, pname, deep=False):
     """-> (events, violations) for parameter pname of fi."""
     uses = cons.uses(fi, pname)
@@ -95,6 +163,7 @@ def analyse(repo, cons, fi, pname, deep=False):
     events = []        # (cfg node, label, ast node, once)
     frees = []         # cfg nodes after which the name is re-iterable/cursor
     cursor_groups = {}
+    cursor_uses = {}
     # what each local alias of the parameter is: a cursor (iter(p)), a
     # re-iterable copy (memorize / tuple / list ...), or just another name
     alias_kind = {}
@@ -107,7 +176,8 @@ def analyse(repo, cons, fi, pname, deep=False):
             tg = repo.lookup(d) if d else None
             key = tg.key if isinstance(tg, model.FuncInfo) else d
             nm = st.targets[0].id
-            if d == 'builtins.iter':
+            if d == 'builtins.iter' or d in CURSOR_BUILDERS and \
+                    _single_binding(fi.node, nm):
                 alias_kind[nm] = ('cursor', st)
             elif key in REITERABLE or d in REITERABLE or (
                     d in REITERABLE_EAGER) or (
@@ -149,6 +219,7 @@ def analyse(repo, cons, fi, pname, deep=False):
                 u.alias, (None,))[0] == 'cursor'):
             # uses of an explicit cursor: one event, at the iter() call
             cursor_groups.setdefault(u.alias, (cn, u))
+            cursor_uses.setdefault(u.alias, []).append((cn, u))
             continue
         if self_rebind and (u.mode in ('eager', 'pass', 'callee-eager') and (
                 any(k in u.detail for k in REITERABLE_EAGER) or
@@ -178,6 +249,9 @@ def analyse(repo, cons, fi, pname, deep=False):
                     events.append((c2, 'cursor %s = iter(%s)' % (
                         alias, pname), s, False))
                 break
+    exhausted = _exhausted_cursor_read(g, cursor_uses, deep)
+    if exhausted is not None:
+        return events, [exhausted]
     if len(events) < 2 and not any(e[0].loop_depth > 0 for e in events):
         return events, []
     ev_by_node = {}
